@@ -12,11 +12,15 @@ use vcore::zoo_def::{self, ZooModule};
 use zoo::proto::ProtoOps;
 use zoo::{Entry, TypeOps};
 
+mod c04p;
 mod c17;
 mod c18;
 #[path = "../../e_codegen/src/pool.rs"]
 mod pool;
 mod refproto;
+
+#[global_allocator]
+static GLOBAL: c04p::Meter = c04p::Meter;
 
 pub struct Ctx {
     pub zoo: Vec<ZooModule>,
@@ -255,7 +259,11 @@ fn main() {
             for (i, v) in values_of(&ctx, e).iter().enumerate() {
                 println!("T {i} {}", v.short());
                 let _ = std::io::stdout().flush();
-                if prop == "C17" {
+                if prop == "C04" {
+                    std::env::set_var("VERIF_LOCATE", "1");
+                    c04p::run_entry(&ctx, e, &mut agg);
+                    break;
+                } else if prop == "C17" {
                     c17::check_case(&ctx, e, v, &mut agg);
                 } else {
                     c18::check_case(&ctx, &schemas, e, v, &mut agg);
@@ -271,6 +279,9 @@ fn main() {
             machinery_error("replay: the value was too large to embed; rerun the tier instead");
         }
         let v = Value::from_json(&c["value"]);
+        if c["kind"] == "c04p" {
+            c04p::replay(&ctx, e, &c)
+        }
         let mut agg = Agg::default();
         match c["kind"].as_str().unwrap_or("") {
             "c17" => c17::check_case(&ctx, e, &v, &mut agg),
@@ -290,6 +301,7 @@ fn main() {
         std::process::exit(1)
     }
     match args.property.as_str() {
+        "C04" => c04p::run(&args),
         "C17" => c17::run(&args),
         "C18" => c18::run(&args),
         p => machinery_error(&format!("e_proto does not serve {p}")),
